@@ -256,14 +256,11 @@ func (k *rlCase) mutate() {
 	case r < 97:
 		k.opResetOwner()
 	default:
-		// ResetBlockedRemotes / RefreshFromHandshake do not mark the list dirty; in the ordinary kinds they are
-		// always followed by an operation that does (the stale pattern has its own kind)
 		if k.c.Chance(0.5) {
 			k.opUnblock()
 		} else {
 			k.opRefresh()
 		}
-		k.opLearn()
 	}
 }
 
@@ -305,7 +302,7 @@ func (k *rlCase) json(kind string) map[string]any {
 }
 
 func runRemoteList(c *hx.Ctx) {
-	cw := c.NewCaseWriter("From NV Require Import model.RemoteList corr.RemoteList_corr.", "RemoteList_corr.case", "RemoteList_corr.check_case", 150)
+	cw := c.NewCaseWriter("From NV Require Import model.RemoteList corr.RemoteList_corr.", "RemoteList_corr.case", "RemoteList_corr.check_case", 20)
 	var failures []map[string]any
 	add := func(k *rlCase, kind string) {
 		defer func() {
@@ -336,24 +333,20 @@ func runRemoteList(c *hx.Ctx) {
 		k.deny, k.denyDNS = nil, nil
 		k.rl = nebula.VerifNewRL(k.vpn, k.shouldAdd)
 		run(k, func() {
-			for i, a := range all {
+			// resolver results are not capped: every corpus address with two ports (mapped literals stay mapped)
+			var dns []netip.AddrPort
+			for _, a := range all {
+				dns = append(dns, netip.AddrPortFrom(a, 4242), netip.AddrPortFrom(a, 1))
+			}
+			k.dns = dns
+			k.rl.SetDNS(dns)
+			k.emit(fmt.Sprintf("RDns %s", rlAPsLit(dns)), "dns <whole corpus> x {4242, 1}")
+			// the mapped forms also as reported v6 entries (unmapped on the way out), spread over the owners
+			for i, a := range rlParse(rlMapped) {
 				o := k.owners[i%len(k.owners)]
-				for _, port := range []uint16{4242, 1} {
-					if a.Is4() {
-						e := rlProtoV4(a, uint32(port))
-						k.rl.PrependV4(o, e)
-						k.emit(fmt.Sprintf("RPre4 %s (%d, %d)", rlAddrLit(o), e[0], e[1]), fmt.Sprintf("prepend4 owner=%s %v", o, e))
-					} else {
-						e := rlProtoV6(a, uint32(port))
-						k.rl.PrependV6(o, e)
-						k.emit(fmt.Sprintf("RPre6 %s (%d, %d, %d)", rlAddrLit(o), e[0], e[1], e[2]), fmt.Sprintf("prepend6 owner=%s %v", o, e))
-					}
-				}
-				if i%7 == 6 {
-					for _, pf := range prefs {
-						k.opCopy(pf)
-					}
-				}
+				e := rlProtoV6(a, 4242+65536)
+				k.rl.PrependV6(o, e)
+				k.emit(fmt.Sprintf("RPre6 %s (%d, %d, %d)", rlAddrLit(o), e[0], e[1], e[2]), fmt.Sprintf("prepend6 owner=%s %v", o, e))
 			}
 			for _, pf := range prefs {
 				k.opCopy(pf)
